@@ -23,7 +23,10 @@ Definition go_repeat (s : bytes) (count : Z) : result bytes :=
   else if count =? 1 then Ok s
   else if count <? 0 then Panic                                 (* "strings: negative Repeat count" *)
   else if max_int64 / count <? blen s then Panic                (* "strings: Repeat output length overflow" *)
-  else Ok (rep_bytes (Z.to_nat count) s).
+  else match s with
+       | [] => Ok []                                            (* if len(s) == 0 { return "" } *)
+       | _ => Ok (rep_bytes (Z.to_nat count) s)
+       end.
 
 (* the cap of the repaired kfRepeat: at most this many output bytes (const maxRepeatOutput) *)
 Definition repeat_cap : Z := 1000000.
